@@ -9,6 +9,7 @@ import (
 	"fmt"
 	"os"
 	"sort"
+	"strings"
 	"sync"
 	"time"
 
@@ -69,6 +70,26 @@ func MakeAcct(name string) Acct {
 	priv := &secp256k1.PrivKey{Key: seed[:]}
 	addr := sdk.AccAddress(priv.PubKey().Address())
 	return Acct{Name: name, Priv: priv, Addr: addr, Bech: addr.String()}
+}
+
+var minedMu sync.Mutex
+var mined = map[string]string{}
+
+// MineAcctName returns the first account name prefix+i (i = 0, 1, ...) whose address string ends with the given suffix.
+// Deterministic; about 32^len(suffix) candidates are tried.
+func MineAcctName(prefix, suffix string) string {
+	minedMu.Lock()
+	defer minedMu.Unlock()
+	if n, ok := mined[prefix+"|"+suffix]; ok {
+		return n
+	}
+	for i := 0; ; i++ {
+		n := fmt.Sprintf("%s%d", prefix, i)
+		if strings.HasSuffix(MakeAcct(n).Bech, suffix) {
+			mined[prefix+"|"+suffix] = n
+			return n
+		}
+	}
 }
 
 // Config describes a deterministic genesis.
